@@ -1377,3 +1377,20 @@ Definition is_final (m : wbmode) (b : N) (c0 : config) (sched : list N) : bool :
   existsb (fun x => (length (fst x) =? length sched)%nat
                     && forallb (fun ab => fst ab =? snd ab) (combine (fst x) sched))
           (finals m b c0).
+
+(** boolean mirror of [ordered] (for the examples) *)
+Fixpoint orderedb (rank : N -> N) (T : list (N * footprint)) : bool :=
+  match T with
+  | [] => true
+  | af :: T' =>
+    forallb (fun bf => negb (rank (fst bf) <? rank (fst af)) || independent (snd af) (snd bf)) T'
+    && orderedb rank T'
+  end.
+
+(** what the stale write-back destroys: the cancelled entry is back to TxReceived/TxSent and
+    confirmed although cancel_tx (thread 1) returned Ok *)
+Definition clobbered (c : config) : bool :=
+  existsb (fun e => opt_eqb (e_slate e) (Some 0) && e_conf e
+                    && match e_type e with TReceived | TSent => true | _ => false end)
+          (st_log (snd c))
+  && match nth_error (fst c) 1 with Some l => l_res l =? 0 | None => false end.
